@@ -83,5 +83,49 @@ MANIFEST_TEXT.update({
     },
 })
 
+MANIFEST_TEXT.update({
+    "C01": {
+        "level": "Bounded model checking of the generator's actual expansion: a direct-call twin and an opaque object are driven by "
+                 "the same symbolic call sequence (length 3, thorough 4); results after every call and full state incl. call log "
+                 "after every step must agree - wrong dispatch, lost updates and double calls are visible for every value.",
+        "note": "Corpus of trait shapes / containers / object forms is enumerated; the generator is not executed symbolically.",
+        "technique": BMC + "; differential against direct trait calls on a twin",
+    },
+    "C02": {
+        "level": "Bounded model checking per auto-converted shape: the implementor records exactly what it received (address, "
+                 "length, elements, variant, payload), the caller compares with what it sent, both directions, all values within "
+                 "lengths 0..=4.",
+        "note": "Shapes enumerated; strings symbolic ASCII + fixed multi-byte samples.",
+        "technique": BMC,
+    },
+    "C04": {
+        "level": "Bounded model checking: raw machine words of vtables / groups / objects vs per-name accessors (positional vs "
+                 "nominal), symbolic optional-vtable presence, concrete/opaque bit identity. The cross-process determinism clause "
+                 "is NOT claimed.",
+        "note": "Corpus enumerated; dev-profile layout.",
+        "technique": BMC + "; raw-word vs accessor comparison",
+    },
+    "C06": {
+        "level": "Bounded model checking over symbolic lifecycle paths with drop-counted payloads, CBMC's memory-leak check and "
+                 "Kani's size-matched dealloc model: exactly-once drop, nothing leaked, borrowed things never dropped.",
+        "note": "Paths of <= 3 lifecycle operations; panics outside.",
+        "technique": BMC + " with memory-leak and dealloc-size checks",
+    },
+    "C07": {
+        "level": "Bounded model checking of context-count balance over symbolic create/child/clone/cast/consume/drop sequences on "
+                 "trees of <= 3 objects, and of 'context alive during a by-value call'. Found: borrowed wrapped returns leak one "
+                 "context clone per call (open known finding, 3 scenarios).",
+        "note": "Counted context type instead of CArc (cost); known-finding scenarios are separate harnesses keyed by role.",
+        "technique": BMC,
+    },
+    "C08": {
+        "level": "Bounded model checking with the enabled set symbolic: one query covers all 2^n enabled sets x the symbolically "
+                 "selected requested subset x the cast operation: success iff requested is a subset of enabled, same-instance "
+                 "dispatch, as_mut visibility, cast back keeps every optional trait.",
+        "note": "n <= 4; groups enumerated.",
+        "technique": BMC,
+    },
+})
+
 NOT_YET = {k: "check under construction at this commit (planned in DESIGN.md section 5); not claimed yet" for k in
-           ["C01", "C02", "C04", "C06", "C07", "C08", "C09", "C17", "C20"]}
+           ["C09", "C17", "C20"]}
